@@ -301,7 +301,7 @@ def _xmcd_payload(dev: str, rev: str, sub_i: int, form: str):
     return path, data, ["xmcd:" + sub]
 
 
-def _mbi_payload(dev: str, rev: str, variant: int):
+def _mbi_payload(dev: str, rev: str, variant: int, form: str = "bin"):
     from vf.gen import mbi as GM
 
     db = _state()["db"]
@@ -323,12 +323,20 @@ def _mbi_payload(dev: str, rev: str, variant: int):
     path, data = _build(lambda: _cached_file(("mbi", dev, rev, target, auth), build), "mbi")
     cls = GM.find_class(dev, target, auth, rev)
     labels = ["mbi:%s_%s" % (auth, target)]
+    if form == "config":
+        # the segment named by its image configuration (built per process: a folder of files, nothing random goes into plain / CRC images)
+        key = ("mbi_cfg", dev, rev, target, auth)
+        if key not in _P:
+            root = os.path.join(_workdir(), "mbicfg_%s_%s_%s_%s" % (dev, rev, target, auth))
+            _P[key] = _build(lambda: GM.materialise(GM.default_case(cls, salt=14), root).config_path, "mbi_config")
+        path = _P[key]
+        labels.append("app_form:config")
     if "ExportMixinAppFcf" in cls["mixins"]:
         labels.append("mbi:appfcf")
     return path, data, labels
 
 
-def _ahab_payload(dev: str, rev: str, variant: int):
+def _ahab_payload(dev: str, rev: str, variant: int, form: str = "bin"):
     v = variant % 3  # 8704 / 9728 / 9216 B: the last one ends on the 1 KiB alignment of the floating container behind it
 
     def build():
@@ -348,10 +356,25 @@ def _ahab_payload(dev: str, rev: str, variant: int):
         check_config(cfg, schemas, search_paths=[_workdir()])
         img = AHABImage.load_from_config(cfg, search_paths=[_workdir()])
         img.update_fields()
+        _P[("ahab_cfg_dict", dev, rev, v)] = cfg
         return img.export()
 
     path, data = _build(lambda: _cached_file(("ahab", dev, rev, v), build), "ahab")
-    return path, data, ["ahab:v%d" % v] + (["ahab:ends_aligned"] if len(data) % 1024 == 0 else [])
+    labels = ["ahab:v%d" % v] + (["ahab:ends_aligned"] if len(data) % 1024 == 0 else [])
+    if form == "config":
+        key = ("ahab_cfg", dev, rev, v)
+        if key not in _P:
+            import yaml
+
+            if ("ahab_cfg_dict", dev, rev, v) not in _P:
+                _build(build, "ahab_config")  # another process published the binary: make this process's copy of the inputs
+            cpath = os.path.join(_workdir(), "ahab_cfg_%s_%s_%d.yaml" % (dev, rev, v))
+            with open(cpath, "w", encoding="utf-8") as f:
+                yaml.safe_dump(_P[("ahab_cfg_dict", dev, rev, v)], f)
+            _P[key] = cpath
+        path = _P[key]
+        labels.append("app_form:config")
+    return path, data, labels
 
 
 def _first_enum(schemas, key: str):
@@ -375,12 +398,12 @@ def _first_enum(schemas, key: str):
     return walk(schemas)
 
 
-def _app_payload(name: str, dev: str, rev: str, variant: int):
+def _app_payload(name: str, dev: str, rev: str, variant: int, form: str = "bin"):
     kind = APP_KIND[name]
     if kind == "mbi":
-        return _mbi_payload(dev, rev, variant)
+        return _mbi_payload(dev, rev, variant, form)
     if kind == "ahab":
-        return _ahab_payload(dev, rev, variant + (1 if name == "secondary_image_container_set" else 0))
+        return _ahab_payload(dev, rev, variant + (1 if name == "secondary_image_container_set" else 0), form)
     files = {"hab": HAB_FILES, "sb21": SB21_FILES, "sb31": SB31_FILES}[kind]
     fn = files[variant % len(files)]
     path, data = _cached_file(("fix", fn), lambda: _fixture(fn))
@@ -447,7 +470,7 @@ def _materialise(case, tab: L.Table) -> Mat:
             cfg[key], m.pay[name] = path, bytes(data)
             m.labels += labs
         elif name in L.APP_SEGMENTS:
-            path, data, labs = _app_payload(name, dev, rev, int(spec.get("variant", 0)))
+            path, data, labs = _app_payload(name, dev, rev, int(spec.get("variant", 0)), spec.get("form", "bin"))
             cfg[key], m.pay[name] = path, bytes(data)
             m.labels += labs
             m.labels.append("app:" + APP_KIND[name])
@@ -880,7 +903,7 @@ def _layout_strategy():
                 else:
                     present = not (can_skip_app and len(tab.names) > 1) or draw(st.sampled_from([True] * 11 + [False]))
                 if present:
-                    segs[name] = {"variant": draw(st.integers(0, 3))}
+                    segs[name] = {"variant": draw(st.integers(0, 3)), "form": draw(st.sampled_from(["bin", "bin", "bin", "config"]))}
                 continue
             if name in L.VALUE_SEGMENTS:
                 if draw(st.booleans()):
